@@ -8,15 +8,15 @@ import vlib
 META = {
     "property_id": "C19",
     "level": "proof",
-    "technique": "Coq theorems over an executable model of gencommon's FindInterface pipeline (parameter naming for all parameter lists, embedded-method merge for all embedding trees, type-reference rendering and import activation for all type ASTs) + translator ties (params.go/method.go regenerated as Gallina and proved equal to the model each run; basic-kind table) + a build farm: generated packages run through the real FindInterface, every observation judged inside Coq against model and specification, the rendered interface compiled against the original type",
+    "technique": "Coq theorems over an executable model of gencommon's FindInterface pipeline (parameter naming for all parameter lists, embedded-method merge for all embedding trees incl. interfaces embedding interfaces, fresh names for on-demand imports, type-reference rendering and import activation for all type ASTs) + translator ties (params.go/method.go, ImportString, the merge loop of interface.go regenerated as Gallina and proved equal to the model for all arguments each run, robust to renames/helper extraction/loop forms; basic-kind table) + a build farm: generated packages run through the real FindInterface, every observation judged inside Coq against model and specification, the rendered interface compiled against the original type",
     "design_ref": "DESIGN.md §4 C19",
-    "level_text": "Proof: IFace*Proofs.v show for the model of params.go/method.go/interface.go/imports.go (current tree) that parameter names are pairwise distinct valid identifiers keeping the user's names (all parameter lists, any length, any mix of unnamed/_/user-chosen names incl. arg0/ret0/ctx/err), that the collected method set is exactly own + promoted-and-unambiguous methods with the private filter, and that every rendered type reference denotes the original type under the active imports, which contain every qualifier used (Props/C19.v). The model is tied to the source by a farm of generated packages per the property's quantifier; compiler acceptance of the rendered interface is observed, not proved (partial).",
+    "level_text": "Proof: IFace*Proofs.v show for the model of params.go/method.go/interface.go/imports.go (current tree) that parameter names are pairwise distinct valid identifiers keeping the user's names (all parameter lists, any length, any mix of unnamed/_/user-chosen names incl. arg0/ret0/ctx/err), that the collected method set is exactly own + promoted-and-unambiguous methods with the private filter (interfaces that embed interfaces: their method set is a set, shared methods are one method), that the imports FindInterface returns bind pairwise distinct names none of which is a package-level name (proved from calcImports/addNamed, not assumed), and that every rendered type reference denotes the original type under those imports, which contain every qualifier used (Props/C19.v, 31 theorems, no axioms). Translator tie: the parameter-naming functions, ImportString, the embedded-method merge loop and the listing condition are regenerated from the source each run and proved equal to the model for all arguments. The rest of the model is tied by a farm of generated packages per the property's quantifier; compiler acceptance of the rendered interface is observed, not proved (partial).",
     "level_note": "Trusted: Coq 8.16.1 kernel + vm_compute; hand-written model tied by correspondence only; go/types (type ASTs, TypeImplements oracle bits, method set cross-check), go/packages, the Go compiler as the judge of 'compiles and fits'; harness generator. No axioms.",
 }
 
 TRUSTED = [
     "Coq 8.16.1 kernel and VM (vm_compute); no native_compute; no axioms",
-    "hand-written model coq/theories/IFaceModel.v of gencommon/{params,method,imports,interface}.go, tied by correspondence only",
+    "hand-written model coq/theories/IFaceModel.v of gencommon/{params,method,imports,interface}.go; tied by translator (T) for parameter naming, ImportString, the merge loop and the listing condition, by correspondence (C) for the rest (calcImports, addNamed/unusedName, ExtractTypeRef, the traversal of namedTypeToInterface)",
     "go/types and golang.org/x/tools/go/packages: the type ASTs, the per-parameter 'implements context.Context / error' bits (gencommon.TypeImplements) and the method set of *T are read off them; the model's formalisation of the selector rule (go_ms) is compared with go/types on every case",
     "the Go 1.23 compiler: acceptance of `type Rendered interface{...}; var _ Rendered = (*T)(nil)` is observed (partial: no Gallina model of the compiler)",
     "translators harness/cmd/xlate_params (go/parser; subset and reference-threading convention in its header; primitives coq/theories/IFaceGenPrims.v incl. the loop bound loop_fuel) and harness/cmd/xlate_basic_kinds; both validated by the correspondence run",
@@ -28,7 +28,7 @@ HEADER = ("From Coq Require Import List Bool String NArith.\nImport ListNotation
 
 VERDICT = {1: "observation violates the specification (names / method set / does not compile and fit)",
            2: "observation satisfies the specification but differs from the Coq model",
-           3: "the model's selector rule (go_ms) disagrees with go/types' method set on this tree"}
+           3: "the model's selector rule (go_ms) or interface union (iface_methods) disagrees with go/types on this tree"}
 
 
 def run_harness(ctx, binp, runs):
@@ -100,9 +100,10 @@ def translator_ties(ctx, pending):
 
 def run(ctx):
     ctx.trusted = TRUSTED
+    il.add_own_findings(ctx, vlib.VERIF)
     ctx.assumptions = [
         "programs inside the property's quantifier: struct targets with 1-8 methods, embedding at most two levels deep, the listed type constructors, unexported methods only on same-package types",
-        "the aliases of the active imports are pairwise distinct and differ from the package-level names of the target package (alias_injective; holds for every file that compiles, can fail only through on-demand imports)",
+        "the file the ImportHandler is built from compiles: its import specs bind pairwise distinct names, none of them a package-level name of the package, `_` or `.` (specs_okb, a predicate on the input; that the imports FindInterface RETURNS bind distinct names is proved, C19_alias_injective, and judged on every observation)",
         "parameter names given by the user are Go identifiers (the source compiles)",
     ]
     # broken obligations / ties are held back: cases with a concrete failing input (verdict 1) are
@@ -127,8 +128,8 @@ def run(ctx):
         return
     quick = ctx.tier == "quick"
     runs = [("corpus", ["-mode", "corpus"]),
-            ("random", ["-mode", "random", "-n", 38 if quick else 600]),
-            ("shapes", ["-mode", "shapes", "-n", 6 if quick else 180])]
+            ("random", ["-mode", "random", "-n", 34 if quick else 600]),
+            ("shapes", ["-mode", "shapes", "-n", 8 if quick else 240])]
     cdir = os.path.join(vlib.VERIF, "corpus", "C19")
     descs = []
     for k, name in enumerate(sorted(os.listdir(cdir)) if os.path.isdir(cdir) else []):
@@ -151,14 +152,19 @@ def run(ctx):
                    {"kind": "coq_eval"}, failing_input=False)
         return
     bad = [(i, c) for i, c in allbad if c < 10]
-    info = [(i, c) for i, c in allbad if c >= 10]
+    ood = [(i, c) for i, c in allbad if c >= 10]       # outside the quantifier (input-only predicate)
+    info = [(i, c) for i, c in ood if c == 12]         # ... and different from the model
     shapes = shapes_of(jsons, bad)
     ctx.log("judged: %d bad case(s) in %d shape(s)" % (len(bad), len(shapes)))
     widened = None
-    if (shapes or pending) and not any(code == 1 for _, _, code, _ in shapes):
+    # a verdict-1 shape that is an open known finding is not "a failing input for what is broken now"
+    def real1(shs):
+        return any(code == 1 and not il.is_known(ctx, feats) for _, _, code, feats in shs)
+    unknown = [sh for sh in shapes if not il.is_known(ctx, sh[3])]
+    if (unknown or pending) and not real1(shapes):
         # something is wrong but no concrete failing input yet: widen the farm before giving up
         t2, j2, err = run_harness(ctx, binp, [("widen", ["-mode", "random", "-n", 100, "-seed", ctx.seed + 7919]),
-                                              ("widenshapes", ["-mode", "shapes", "-n", 30, "-seed", ctx.seed + 104729])])
+                                              ("widenshapes", ["-mode", "shapes", "-n", 40, "-seed", ctx.seed + 104729])])
         if not err:
             b2, _, err = judge(ctx, t2, "widen", fn="c19_judge_all")
             if not err:
@@ -172,7 +178,7 @@ def run(ctx):
                         sh[3]["found_by"] = "widened farm run"
                     shapes = found + shapes
                     jsons = jsons_w
-    have1 = any(code == 1 for _, _, code, _ in shapes)
+    have1 = real1(shapes)
     # verdict-1 shapes first (smallest first), then the rest
     shapes.sort(key=lambda sh: (sh[2] != 1, sh[0]))
     also = [r["unchecked"] for r, _ in pending]
@@ -180,7 +186,7 @@ def run(ctx):
         if have1 and code != 1:
             continue          # a failing input exists: no `no-failing-input-found` lines
         j = jsons[i]
-        if code in (1, 2) and ctx.nreplay < 4:
+        if code in (1, 2) and ctx.nreplay < 4 and not il.is_known(ctx, feats):
             j2m = minimise(ctx, binp, j, feats)
             if j2m is not j:
                 feats = dict(il.classify(j2m), code=code, minimised=True, **({"found_by": feats["found_by"]} if "found_by" in feats else {}))
@@ -223,14 +229,18 @@ def run(ctx):
         "own_methods": hist(str(len(j["tree"]["own"])) for j in jsons),
         "active_imports": hist(str(len(j["imports"])) for j in jsons),
         "compiled": hist(str(j["compiled"]) for j in jsons),
+        "out_of_domain_cases": len(ood),
+        "out_of_domain_by_kind": hist(jsons[i]["kind"] for i, _ in ood if i < len(jsons)),
+        "out_of_domain_why": hist(il.ood_reason(jsons[i]) for i, _ in ood if i < len(jsons)),
         "out_of_domain_model_differences": len(info) if not err2 else "n/a",
         "samples": [il.view(j) for j in jsons[:1] + jsons[len(jsons) // 2: len(jsons) // 2 + 1]],
         "disagreements": len(bad),
     })
     for s in ctx.cov["samples"]:
         s.pop("desc", None)
-    ctx.log("correspondence: %d cases, %d non-trivial, %d disagreement(s), %d out-of-domain model difference(s)" % (
-        len(jsons), nt, len(bad), len(info)))
+    ctx.log("correspondence: %d cases, %d non-trivial, %d disagreement(s); %d case(s) outside the quantifier "
+            "(counted in Coq, not gating), %d of them different from the model" % (
+                len(jsons), nt, len(bad), len(ood), len(info)))
 
 
 def nontrivial(j):
